@@ -166,6 +166,13 @@ class FuncV(Val):
         self.name, self.fn = name, fn
 
 
+class ClosureV(Val):
+    """A nested function: its AST node and the environment it closes over (by reference)."""
+
+    def __init__(self, node, env):
+        self.node, self.env = node, env
+
+
 class ClassV(Val):
     def __init__(self, name, bases=()):
         self.name, self.bases = name, tuple(bases)
@@ -418,6 +425,14 @@ class Engine:
                 pass
             except Unsupported as e:
                 self.errors.append('unsupported: %s [path %s]' % (e, decisions))
+            except z3.Z3Exception:
+                raise
+            except (KeyError, AttributeError, TypeError, IndexError, ValueError, AssertionError) as e:
+                # the contract harness does not fit the current shape of the function: its obligations cannot be generated
+                import traceback
+                tb = traceback.format_exc().strip().splitlines()
+                self.errors.append('ungenerated: contract harness does not apply to the current tree (%s: %s) at %s [path %s]'
+                                   % (type(e).__name__, e, tb[-3].strip() if len(tb) >= 3 else '', decisions))
         return list(self.vcs.values())
 
 
@@ -579,7 +594,10 @@ class Interp:
                 else:
                     raise Unsupported('del of non-name')
         elif isinstance(st, ast.FunctionDef):
-            raise Unsupported('nested function definition %s' % st.name)
+            # a closure: the function text plus the defining environment (captured by reference)
+            if st.decorator_list:
+                raise Unsupported('decorated nested function %s' % st.name)
+            env[st.name] = ClosureV(st, env)
         else:
             raise Unsupported('statement %s' % type(st).__name__)
 
@@ -890,6 +908,9 @@ class Interp:
                 if isinstance(a, ast.Starred):
                     sv = self.eval(a.value, env)
                     if not isinstance(sv, (TupleV, ListV)):
+                        if self.loops.get('star_opaque') and isinstance(sv, ObjV) and len(node.args) == 1:
+                            args.append(sv)        # f(*rows) with an opaque row collection: the callee's contract takes the collection
+                            continue
                         raise Unsupported('*args of non-concrete sequence')
                     args.extend(sv.items)
                 else:
